@@ -49,6 +49,7 @@ def oracle(script: dict, run: Any) -> List[Violation]:
     cfg = script["config"]
     A = cfg.get("A")
     live: Dict[str, List[Any]] = {}
+    bodies: Dict[str, set] = {}
     peak_probe: Dict[str, int] = {}
     probe_started = False
     order_take: Dict[str, List[Any]] = {}
@@ -73,6 +74,14 @@ def oracle(script: dict, run: Any) -> List[Violation]:
             lv = live.get(node, [])
             if d in lv:
                 lv.remove(d)
+        elif kind == "fn_enter":
+            bodies.setdefault(node, set()).add(d)
+            if A and len(bodies[node]) > A:
+                out.append(Violation("C03/bodies-exceed-limit", f"worker {node} has {len(bodies[node])} task functions running at once > max_async_tasks={A} at event {e[0]} "
+                                     f"(deliveries {sorted(bodies[node])[:6]})", event=e[0]))
+                break
+        elif kind == "fn_exit":
+            bodies.get(node, set()).discard(d)
     if A == 1:
         for node, ent in order_enter.items():
             tk = [d for d in order_take.get(node, []) if d in set(ent)]
